@@ -461,11 +461,12 @@ def run(ctx):
         "Polyline->Circle, from_ConvexHull) are NOT proved: numerical search only (harness/c13_search.py), "
         "tolerances 1e-7..2e-6 of the local field",
     ]
-    ok = ctx.regen(["GenCuboid"])
+    ok = ctx.regen(["GenCuboid", "GenCylMask"])
     built = ctx.build_props() and ok
     if ctx.tier == "thorough" and built:
         ctx.coqchk("MV.Props.C13")
     ctx.partial += [t for t in ctx.theorems if t.endswith("_partial")]
+    ctx.refuted += [t for t in ctx.theorems if t.endswith("_refuted")]
     mk = run_guarded(ctx, lambda: exact_correspondence(ctx, built), "C13 exact correspondence") or []
     ctx.log(f"exact correspondence done ({ctx.counts['traces_validated_against_impl']} cases agree)")
     if built:
